@@ -10,7 +10,7 @@ mkdir -p "$BIN"
 if [ "${1:-}" = replay ] && [ -n "${2:-}" ]; then REPLAY_FILE="$(realpath "$2")"; fi
 cd "$ROOT/harness" || exit 2
 cp /repo/ociregistry/go.sum go.sum 2>/dev/null
-SCHED_IDS=" C16 C08 C19 "
+SCHED_IDS=" C16 C08 C19 C10 C11 "
 build() {
   go build -tags verif -o "$BIN/vcheck" ./cmd/vcheck || { echo "harness build failed" >&2; exit 2; }
 }
